@@ -14,31 +14,33 @@ SUFFIX = b'"}}'
 SIG = "C11.later_item_needs_transport_read"
 
 
+def note(rng, ln):
+    alphabet = "abcdefghijklmnopqrstuvwxyz0123456789-_ ."
+    return "".join(rng.choice(alphabet) for _ in range(ln))
+
+
+def fr(t):
+    return PREFIX + t.encode() + SUFFIX
+
+
+OTHER = {
+    "merr": b'{"error":"org.example.Busy"}',
+    "vs": b'{"error":"org.varlink.service.MethodNotFound","parameters":{"method":"a.B"}}',
+    "bad": b'{"parameters":{"note":42}}',
+}
+
+
 def gen_cases(ck, limit, step):
     rng = ck.rng
     cases = []
     quick = ck.tier == "quick"
 
-    def add(notes, events, tag):
-        cases.append({"id": len(cases), "n": len(notes), "notes": notes, "events": events, "tag": tag})
-    corpus = os.path.join(VERIF, "corpus", "c11.jsonl")
-    if os.path.exists(corpus):
-        for line in open(corpus):
-            if line.strip():
-                c = json.loads(line)
-                add(c["notes"], c["events"], "corpus")
-    alphabet = "abcdefghijklmnopqrstuvwxyz0123456789-_ ."
-    for i in range(500 if quick else 8000):
-        n = rng.randrange(2, 7)
-        notes = []
-        for _ in range(n):
-            ln = rng.choice([1, 3, 8, 20, rng.randrange(1, 60), rng.randrange(100, 400) if rng.random() < 0.3 else 5])
-            notes.append("".join(rng.choice(alphabet) for _ in range(ln)))
-        frames = [PREFIX + t.encode() + SUFFIX for t in notes]
-        stream = fg.wire(frames)
-        if len(stream) >= limit:
-            continue
-        mode = rng.choice(["one_read", "per_reply", "random", "two_bursts"])
+    def add(frames, events, tag, pre=0):
+        """frames: list of (kind, text) in wire order; the first `pre` are received before the chain."""
+        cases.append({"id": len(cases), "n": len(frames) - pre, "pre": pre, "frames": frames, "events": events,
+                      "tag": tag})
+
+    def chunk(stream, mode):
         if mode == "one_read":
             cuts = []
         elif mode == "per_reply":
@@ -48,8 +50,65 @@ def gen_cases(ck, limit, step):
             cuts = [rng.choice(nul[:-1])] if len(nul) > 1 else []
         else:
             cuts = fg.random_cuts(rng, len(stream), rng.randrange(1, 6))
-        ev = fg.events_of(rng, fg.chunks_from_cuts(stream, cuts), pend_prob=rng.choice([0, 0.3]))
-        add(notes, ev, mode)
+        return fg.events_of(rng, fg.chunks_from_cuts(stream, cuts), pend_prob=rng.choice([0, 0.3]))
+
+    def wire(frames):
+        return fg.wire([fr(t) if k == "ok" else OTHER[k] for k, t in frames])
+    corpus = os.path.join(VERIF, "corpus", "c11.jsonl")
+    if os.path.exists(corpus):
+        for line in open(corpus):
+            if line.strip():
+                c = json.loads(line)
+                add([tuple(f) for f in c["frames"]], c["events"], "corpus", c.get("pre", 0))
+    # (a) random reply strings, several chunkings
+    for i in range(400 if quick else 8000):
+        n = rng.randrange(2, 7)
+        frames = [("ok", note(rng, rng.choice([1, 3, 8, 20, rng.randrange(1, 60),
+                                                rng.randrange(100, 400) if rng.random() < 0.3 else 5])))
+                  for _ in range(n)]
+        stream = wire(frames)
+        if len(stream) >= limit:
+            continue
+        mode = rng.choice(["one_read", "per_reply", "random", "two_bursts"])
+        add(frames, chunk(stream, mode), mode)
+    # (b) bursts whose total length lands on / next to every growth step (one read)
+    base = len(PREFIX) + len(SUFFIX) + 1
+    for k in range(1, 6 if quick else 12):
+        for d in (-2, -1, 0, 1, 2):
+            total = k * step + d
+            n = rng.randrange(2, 5)
+            short = [note(rng, rng.randrange(1, 12)) for _ in range(n - 1)]
+            rest = total - sum(len(t) + base for t in short) - base
+            if rest < 1:
+                continue
+            for pos in (0, n - 1):
+                texts = list(short)
+                texts.insert(pos, note(rng, rest))
+                frames = [("ok", t) for t in texts]
+                assert len(wire(frames)) == total
+                if total < limit:
+                    add(frames, chunk(wire(frames), "one_read"), "burst_on_growth_step")
+    # (c) a later reply in the same burst that is an error / undecodable / service error
+    for i in range(60 if quick else 600):
+        n = rng.randrange(2, 6)
+        frames = [("ok", note(rng, rng.randrange(1, 40))) for _ in range(n)]
+        frames.insert(rng.randrange(1, n + 1), (rng.choice(["merr", "vs", "bad"]), ""))
+        add(frames, chunk(wire(frames), rng.choice(["one_read", "one_read", "two_bursts"])), "non_success_in_burst")
+    # (d) a connection whose buffer was grown by an earlier large reply, then a chain of short replies
+    for i in range(60 if quick else 600):
+        pre = [("ok", note(rng, rng.choice([300, 700, 1100, 1500, 2500])))]
+        n = rng.randrange(2, 5)
+        frames = pre + [("ok", note(rng, rng.randrange(1, 30))) for _ in range(n)]
+        head = wire(pre)
+        tail = wire(frames[1:])
+        ev = chunk(head, "one_read")[:-1] + chunk(tail, rng.choice(["one_read", "one_read", "per_reply"]))
+        add(frames, ev, "after_large_reply", pre=1)
+    # (e) large bursts (> 4 growth steps) in one read ending in a short reply
+    for i in range(30 if quick else 300):
+        frames = [("ok", note(rng, rng.randrange(250, 500))) for _ in range(rng.randrange(3, 6))] + \
+                 [("ok", note(rng, rng.randrange(1, 20)))]
+        if len(wire(frames)) < limit:
+            add(frames, chunk(wire(frames), "one_read"), "large_burst_short_last")
     return cases
 
 
@@ -59,10 +118,12 @@ def render(c, r, step, limit):
     for s in r["steps"]:
         flags.append("true" if s["data_reads"] > prev else "false")
         prev = s["data_reads"]
+    mask = ["true" if (k == "ok" and i >= c["pre"]) else "false" for i, (k, t) in enumerate(c["frames"])]
+    notes = [coq_bytes(t.encode()) if k == "ok" else "[]" for k, t in c["frames"]]
     return ("{| bc_step := %d; bc_limit := %d; bc_events := %s; bc_n := %d%%nat; bc_off := %d%%nat; "
-            "bc_suf := %d%%nat; bc_notes := %s; bc_views := %s; bc_reads := %s |}") % (
-        step, limit, fg.coq_events(c["events"]), c["n"], len(PREFIX), len(SUFFIX),
-        coq_list([coq_bytes(t.encode()) for t in c["notes"]]), coq_list(views), coq_list(flags))
+            "bc_suf := %d%%nat; bc_notes := %s; bc_mask := %s; bc_views := %s; bc_reads := %s |}") % (
+        step, limit, fg.coq_events(c["events"]), len(c["frames"]), len(PREFIX), len(SUFFIX),
+        coq_list(notes), coq_list(mask), coq_list(views), coq_list(flags))
 
 
 def main():
@@ -128,7 +189,7 @@ def main():
     hist = {}
     for c in cases:
         hist[c["tag"]] = hist.get(c["tag"], 0) + 1
-    nontriv = {case_hash([c["notes"], c["events"]]) for c in cases}
+    nontriv = {case_hash([c["frames"], c["events"]]) for c in cases}
     ck.cov.update({"evaluations": len(cases), "distinct_nontrivial": len(nontriv),
                    "traces_validated_against_impl": len(items), "case_classes": hist,
                    "cases_in_known_finding_class_with_corruption": known,
@@ -136,7 +197,7 @@ def main():
                    "of_which_freed_by_reallocation": corrupted_freed,
                    "cases_all_items_stable": len(items) - len(bad)})
     for c in cases[:2]:
-        ck.samples.append({"notes": c["notes"], "events": [e[0] for e in c["events"]]})
+        ck.samples.append({"frames": [(k, t[:30]) for k, t in c["frames"]], "events": [e[0] for e in c["events"]]})
     ck.assumptions += [
         "PARTIAL: the model tracks which bytes a yielded item points to and what later reads do to them; undefined "
         "behaviour itself (a live shared reference to rewritten/freed memory) is outside Gallina; the harness makes the "
